@@ -1,14 +1,15 @@
-import Driver.Ops
 import Driver.All
 
-partial def loop (h : IO.FS.Stream) (out : IO.FS.Stream) : IO Unit := do
+partial def loop (h : IO.FS.Stream) (out : IO.FS.Stream) (st : Driver.State) : IO Unit := do
   let line ← h.getLine
   if line.isEmpty then return ()
-  let l := (line.toList.filter (· != (Char.ofNat 10)))
-  out.putStrLn (Driver.runOpWith Driver.table (String.ofList l))
-  loop h out
+  let cs := line.toList
+  let cs := if cs.getLast? == some '\n' then cs.dropLast else cs
+  let (st', res) := Driver.step st (String.ofList cs)
+  out.putStrLn res
+  loop h out st'
 
 def main : IO Unit := do
   let stdin ← IO.getStdin
   let stdout ← IO.getStdout
-  loop stdin stdout
+  loop stdin stdout {}
